@@ -925,15 +925,46 @@ func (p *Pool) kill() {
 
 func (p *Pool) Close() { p.kill() }
 
-func (p *Pool) read() (line string, status string) {
-	select {
-	case l, ok := <-p.lines:
-		if !ok {
-			return "", "crash"
+// cpuTicks reads utime+stime (clock ticks, 100/s) of the worker from /proc.
+func (p *Pool) cpuTicks() int64 {
+	b, err := os.ReadFile(fmt.Sprintf("/proc/%d/stat", p.cmd.Process.Pid))
+	if err != nil {
+		return -1
+	}
+	s := string(b)
+	if i := strings.LastIndexByte(s, ')'); i >= 0 {
+		f := strings.Fields(s[i+1:])
+		if len(f) > 12 {
+			u, _ := strconv.ParseInt(f[11], 10, 64)
+			k, _ := strconv.ParseInt(f[12], 10, 64)
+			return u + k
 		}
-		return l, ""
-	case <-time.After(p.Timeout):
-		return "", "hang"
+	}
+	return -1
+}
+
+// read waits for the next line of the worker.  "hang" = the worker burnt more than Timeout
+// of CPU time on this request (robust against a loaded machine), or 25x that in wall-clock time.
+func (p *Pool) read() (line string, status string) {
+	start := time.Now()
+	cpu0 := p.cpuTicks()
+	tick := time.NewTicker(40 * time.Millisecond)
+	defer tick.Stop()
+	for {
+		select {
+		case l, ok := <-p.lines:
+			if !ok {
+				return "", "crash"
+			}
+			return l, ""
+		case <-tick.C:
+			if c := p.cpuTicks(); c >= 0 && cpu0 >= 0 && time.Duration(c-cpu0)*10*time.Millisecond > p.Timeout {
+				return "", "hang"
+			}
+			if time.Since(start) > 25*p.Timeout {
+				return "", "hang"
+			}
+		}
 	}
 }
 
